@@ -1,0 +1,27 @@
+//go:build verif
+
+package token
+
+// Contracts for the verification machinery in /verif (comment-only; build tag verif).
+
+// C12: a token is [8:uid][4:expires][2:level][2:serial][2:features][32:HMAC-SHA256(key, first 18 bytes)], little endian.
+// Authenticate accepts exactly the byte strings that carry a correct signature under this server's key, this
+// server's serial number (compared in full, not modulo 2^16), a valid level and an expiry at least a second ahead -
+// and then reports exactly the signed user, level and feature bits.
+//@ func (ta *authenticator) Authenticate(token []byte, remoteAddr string) (rec *auth.Rec, challenge []byte, err error)
+//@   requires [C12] ta != nil
+//@   modifies inferred
+//@   ensures [C12] long_enough:  err == nil ==> len(token) >= 50
+//@   ensures [C12] signed:       err == nil ==> macMatches("sha256", ta.hmacSalt, token[0:18], token[18:50])
+//@   ensures [C12] serial:       err == nil ==> int(le16(token, 14)) == ta.serialNumber
+//@   ensures [C12] level:        err == nil ==> int(le16(token, 12)) <= int(auth.LevelRoot)
+//@   ensures [C12] not_expired:  err == nil ==> unixNanos(int(le32(token, 8))) >= old(now()) + 1000000000
+//@   ensures [C12] identity:     err == nil ==> rec != nil && uint64(rec.Uid) == le64(token, 0) && int(rec.AuthLevel) == int(le16(token, 12)) && uint16(rec.Features) == le16(token, 16)
+//@   ensures [C12] complete:     len(token) >= 50 && macMatches("sha256", ta.hmacSalt, token[0:18], token[18:50]) && int(le16(token, 14)) == ta.serialNumber && int(le16(token, 12)) <= int(auth.LevelRoot) && unixNanos(int(le32(token, 8))) >= now() + 1000000000 ==> err == nil
+
+// GenSecret issues such a token for the record's user, level and features under the current key and serial number.
+//@ func (ta *authenticator) GenSecret(rec *auth.Rec) (tok []byte, expires time.Time, err error)
+//@   requires [C12] ta != nil && rec != nil
+//@   modifies rec.Lifetime
+//@   ensures [C12] issued: err == nil ==> len(tok) == 50 && macMatches("sha256", ta.hmacSalt, tok[0:18], tok[18:50]) && le64(tok, 0) == uint64(rec.Uid) && le16(tok, 12) == uint16(rec.AuthLevel) && le16(tok, 14) == uint16(ta.serialNumber) && le16(tok, 16) == uint16(rec.Features)
+//@   ensures [C12] refused_negative: old(rec.Lifetime) < 0 ==> err != nil
